@@ -129,12 +129,17 @@ func (q *Queue) Add(elem *queue.Elem) (err error) {
 		if q.inflightDrained && q.current == nil {
 			return
 		}
+		// front is the oldest non-inflight message.
+		var front *list.Element
 		for e := q.current; e != nil; e = e.Next() {
 			// After Init, the inflight messages (PUBLISH or PUBREL) are behind the cursor until ReadInflight has returned them.
 			if e.Value.(*queue.Elem).ID() != 0 {
 				continue
 			}
 			pub := e.Value.(*queue.Elem).MessageWithID.(*queue.Publish)
+			if front == nil {
+				front = e
+			}
 			// drop expired non-inflight message
 			if queue.ElemExpiry(now, e.Value.(*queue.Elem)) {
 				dropElem = e
@@ -153,12 +158,9 @@ func (q *Queue) Add(elem *queue.Elem) (err error) {
 			return
 		}
 
-		if q.inflightDrained {
-			// drop the front message
-			dropElem = q.current
-			return
-		}
-		// the messages in the queue are all inflight messages, drop the current elem
+		// drop the front message.
+		// If the messages in the queue are all inflight messages (front is nil), drop the current elem.
+		dropElem = front
 		return
 	}
 	return nil
